@@ -274,6 +274,10 @@ class netcdf_indexer:
         # ------------------------------------------------------------
         if unpack:
             data = self._unpack(data, attributes)
+            if not isinstance(data, np.ndarray):
+                # Unpacking a zero-dimensional array gives a numpy
+                # scalar: make it an array again
+                data = np.asanyarray(data)
 
         # Make sure all strings are unicode
         if data.dtype.kind == "S":
